@@ -6,12 +6,12 @@ From AQ Require Import lib.Base model.RangeSet model.StreamRecv model.StreamSpec
 Definition recvd (r : recv) (o : Z) : Prop := o < r_start r \/ mem o (r_ranges r).
 Definition recvd_sp (sp : rspec) (o : Z) : Prop := o < sp_del sp \/ sp_map sp o <> None.
 
-Lemma recvd_iff r sp o : Inv r sp -> (recvd r o <-> recvd_sp sp o).
+Lemma recvd_iff r sp o : Inv true r sp -> (recvd r o <-> recvd_sp sp o).
 Proof.
-  intros V. unfold recvd, recvd_sp. rewrite <- (i_start _ _ V). split; (intros [H|H]; [left; exact H|]).
-  - right. rewrite (i_val _ _ V o H). discriminate.
+  intros V. unfold recvd, recvd_sp. rewrite <- (i_start _ _ _ V). split; (intros [H|H]; [left; exact H|]).
+  - right. rewrite (i_val _ _ _ V o H). discriminate.
   - destruct (Z_lt_dec o (r_start r)); [left; assumption|]. right.
-    destruct (contains o (r_ranges r)) eqn:C; [apply contains_mem; exact C|]. exfalso. apply H. apply (i_none _ _ V o); [lia|].
+    destruct (contains o (r_ranges r)) eqn:C; [apply contains_mem; exact C|]. exfalso. apply H. apply (i_none _ _ _ V o); [lia|].
     intros M. apply contains_mem in M. congruence.
 Qed.
 
@@ -132,7 +132,7 @@ Proof.
     destruct (nthE (n_emitted s) i) as [f|] eqn:Ei; [|discriminate].
     pose proof (nthE_In _ _ _ Ei) as Hf.
     destruct (ni_recv _ I) as (sp & V & S & _ & _).
-    pose proof (frame_refines (n_recv s) sp (ef_off f) (ef_data f) (ef_fin f) V) as FR.
+    pose proof (frame_refines_strict (n_recv s) sp (ef_off f) (ef_data f) (ef_fin f) V) as FR.
     pose proof (spec_frame_recvd _ _ sp _ _ _ S (ni_emitted _ I f Hf)) as SR.
     pose proof (spec_frame_consistent _ _ sp _ _ _ S (ni_emitted _ I f Hf)) as SC.
     destruct (handle_frame (n_recv s) (ef_off f) (ef_data f) (ef_fin f)) as [ro r'].
@@ -142,7 +142,7 @@ Proof.
     assert (Hmono : forall x, recvd (n_recv s) x -> recvd r' x).
     { intros x Hx. apply (recvd_iff _ _ _ V'). apply M1. apply (recvd_iff _ _ _ V). exact Hx. }
     assert (Hfinal : r_final (n_recv s) <> None -> r_final r' <> None).
-    { rewrite (i_final _ _ V), (i_final _ _ V'). exact M3. }
+    { rewrite (i_final _ _ _ V), (i_final _ _ _ V'). exact M3. }
     set (f' := mkEF (ef_off f) (ef_data f) (ef_fin f) true (ef_out f)) in *.
     assert (Hs' : exists q, s' = report (r_finished (n_recv s)) ro s r' (set_nth i f' (n_emitted s)) (n_rreset s) /\ q = tt).
     { destruct ro; try (inversion H; subst; exists tt; split; reflexivity). contradiction Hne. reflexivity. }
@@ -154,7 +154,7 @@ Proof.
     + intros x Hx Hd. destruct (in_set_nth _ _ _ _ _ Ei Hx) as [->|Hx'].
       * cbn [ef_off ef_data ef_fin]. split.
         -- intros y Hy. apply (recvd_iff _ _ _ V'). apply M2. exact Hy.
-        -- intros Hfi. rewrite (i_final _ _ V'). apply M4. exact Hfi.
+        -- intros Hfi. rewrite (i_final _ _ _ V'). apply M4. exact Hfi.
       * destruct (ai_deliv _ A x Hx' Hd) as (X1 & X2). split; [intros y Hy; apply Hmono, X1, Hy|intros Hfi; apply Hfinal, X2, Hfi].
   - (* outcome *)
     destruct (nthE (n_emitted s) i) as [f|] eqn:Ei; [|discriminate].
@@ -205,12 +205,12 @@ Proof.
   assert (Hall : sp_del sp = Zlen (n_written s)).
   { destruct (Z.eq_dec (sp_del sp) (Zlen (n_written s))); [assumption|exfalso].
     assert (Hr : recvd (n_recv s) (sp_del sp)) by (apply (ai_acked _ A); [left; lia|lia]).
-    destruct Hr as [Hr|Hr]; [rewrite (i_start _ _ V) in Hr; lia|].
-    pose proof (mem_above _ _ _ (i_wf _ _ V) Hr) as Hm. rewrite (i_start _ _ V) in Hm. lia. }
+    destruct Hr as [Hr|Hr]; [rewrite (i_start _ _ _ V) in Hr; lia|].
+    pose proof (mem_above _ _ _ (i_wf _ _ _ V) Hr) as Hm. rewrite (i_start _ _ _ V) in Hm. lia. }
   assert (Hf : sp_final sp = Some (Zlen (n_written s))).
-  { pose proof (ai_fin _ A F3) as X. rewrite (i_final _ _ V) in X. destruct (sp_final sp) as [f|] eqn:Ef; [|congruence].
+  { pose proof (ai_fin _ A F3) as X. rewrite (i_final _ _ _ V) in X. destruct (sp_final sp) as [f|] eqn:Ef; [|congruence].
     destruct (so_final _ _ _ S f Ef) as (_ & ->). reflexivity. }
   split; [rewrite D, Hall; apply ztake_ztake_all|]. split.
-  - rewrite E, (i_finished _ _ V), (i_final _ _ V), (i_start _ _ V), Hf, Hall. cbn. rewrite Z.eqb_refl. reflexivity.
+  - rewrite E, (i_finished _ _ _ V eq_refl), (i_final _ _ _ V), (i_start _ _ _ V), Hf, Hall. cbn. rewrite Z.eqb_refl. reflexivity.
   - unfold eof. congruence.
 Qed.
